@@ -172,6 +172,21 @@ def main():
                         out.write("Q %s\n" % call(f, 1))
                     out.write("Q %s\nQ %s\nEND\n" % (call(f, 1), call(f, 0)))
                     nds += 1
+    # the same EXPIRED key: A sees it expired, is parked before its purge and its own recomputation FAILS (Result: Err,
+    # nothing stored); B meanwhile purges, recomputes successfully and stores a fresh value.  Afterwards the fresh value
+    # must be stored, tracked by the queue, and served
+    nxr = 0
+    with open(a.out, "a") as out:
+        for f in allf:
+            if f["fl"] == "t" or f["sig"] != 0 or f["gates"] or not f["is_result"] or not f["ttl"] or f["cache_if"] or f["inval_on"]:
+                continue
+            age = (f["ttl"] + 1) * (1 if f["fl"] == "a" else 1000)
+            okc = "call %d 1 0 ok %d 8 0 1" % (f["idx"], val(f, 1))
+            errc = "call %d 1 0 err %d 8 0 1" % (f["idx"], val(f, 1))
+            for pause in range(1, 5):
+                out.write("CCASE xr-%d-%d f%d %s %s %s\n" % (a.seed, nxr, f["idx"], f["fl"], f["pol"], f["limit"] if f["limit"] else "-"))
+                out.write("P %s\nP age %d 1 %d\nA %s\nB %s\nPAUSE %d\nQ %s\nEND\n" % (okc, f["idx"], age, errc, okc, pause, okc))
+                nxr += 1
     # overlapping lookups of a stored key (values whose Clone the harness can hold)
     npar = 0
     with open(a.out, "a") as out:
@@ -218,7 +233,7 @@ def main():
                 break
             out.write("STRESS st-%d-r%d f%d 4 %d 0 0 race\nEND\n" % (a.seed, nrace, f["idx"], 400 if a.count > 0 else 3000))
             nrace += 1
-    json.dump(dict(schedules=len(cases) + npar + nstress + ntri + nrace + nds + nest, parked_in_estimator=nest, double_store_schedules=nds, first_call_races=nrace, enumeration=total + npar + nstress + ntri + nrace + nds + nest, overlapping_lookups=npar,
+    json.dump(dict(schedules=len(cases) + npar + nstress + ntri + nrace + nds + nest + nxr, parked_in_estimator=nest, failed_refresh_races=nxr, double_store_schedules=nds, first_call_races=nrace, enumeration=total + npar + nstress + ntri + nrace + nds + nest + nxr, overlapping_lookups=npar,
                    three_caller_schedules=ntri,
                    stress_runs=nstress, op_pairs=hist), sys.stdout)
 
